@@ -69,6 +69,7 @@ func init() {
 			small = []byte("[]{},:\"\\utn10-.e \x1f\x80")
 		}
 		allStrings(small, n, func(b []byte) { e.emit("valid %s nil", hs(b)) })
+		usedBufferHistories(e, []string{"valid"}, false) // "previously used" Buffers
 		if !thorough {
 			// sampled length 3-4
 			for i := 0; i < 20000; i++ {
@@ -104,6 +105,7 @@ func init() {
 			n = 3
 		}
 		allStrings(alphabet, n, func(b []byte) { e.emit("skip %s nil", hs(b)) })
+		usedBufferHistories(e, []string{"skip"}, false)
 		// every value followed by every possible next byte
 		for _, v := range valuePool {
 			for c := 0; c < 256; c++ {
@@ -135,6 +137,7 @@ func init() {
 	}
 	// C11: fast agrees with strict on well-formed values
 	suites["c11"] = func(e *emitter, r *rng, thorough bool) {
+		usedBufferHistories(e, []string{"skipfast"}, false)
 		strs := []string{`"]"`, `"["`, `"}"`, `"{"`, `"\""`, `"\\"`, `"\\\""`, `"]\"["`, `"a]"`, `"]"`, `""`}
 		for _, s1 := range strs {
 			for _, s2 := range strs {
